@@ -114,6 +114,14 @@ class GroundedPrecondition:
         :param preconditions: the preconditions to validate.
         :return: whether the equality preconditions hold.
         """
+        if preconditions.binary_operator == "or":
+            # the (in)equalities of a disjunction are disjuncts; an empty disjunction is false.
+            return any(
+                [obj1 == obj2 for obj1, obj2 in preconditions.equality_preconditions]
+            ) or any(
+                [obj1 != obj2 for obj1, obj2 in preconditions.inequality_preconditions]
+            )
+
         return all(
             [obj1 == obj2 for obj1, obj2 in preconditions.equality_preconditions]
         ) and all(
